@@ -409,7 +409,7 @@ def jobs_for(prop, tier):
         return [j for j in jobs_option_below(tier) if j[1][3] == 'combinations'] + jobs_combinations(tier)
     if prop == 'C03':
         return jobs_c03(tier) + jobs_option_reduce(tier) + jobs_axis(tier, ('reduce',))
-    return {'C02': jobs_c02, 'C03': jobs_c03, 'C04': jobs_c04, 'C06': (lambda t: jobs_c06(t) + jobs_axis(t, ('sort', 'argsort'))), 'C08': (lambda t: jobs_c08(t) + jobs_numpy(t) + jobs_union(t) + jobs_reverse_merge(t) + jobs_record_merge(t) + jobs_list_merge(t) + [j for j in jobs_record_named(t) if j[0] is h_record_mergemany_named]), 'C17': jobs_c17, 'C12': jobs_numpy, 'C10': (lambda t: jobs_c10(t) + [j for j in jobs_record_named(t) if j[0] is h_record_field_key]), 'C05': jobs_c05, 'C09': jobs_c09}.get(prop, lambda t: [])(tier)
+    return {'C02': jobs_c02, 'C03': jobs_c03, 'C04': jobs_c04, 'C06': (lambda t: jobs_c06(t) + jobs_axis(t, ('sort', 'argsort'))), 'C08': (lambda t: jobs_c08(t) + jobs_numpy(t) + jobs_union(t) + jobs_reverse_merge(t) + jobs_record_merge(t) + jobs_list_merge(t) + [j for j in jobs_record_named(t) if j[0] is h_record_mergemany_named]), 'C17': jobs_c17, 'C12': jobs_numpy, 'C10': (lambda t: jobs_c10(t) + [j for j in jobs_record_named(t) if j[0] is h_record_field_key] + jobs_project(t) + [j for j in jobs_option_below(t) if j[1][3] == 'getitem_field']), 'C05': jobs_c05, 'C09': jobs_c09}.get(prop, lambda t: [])(tier)
 
 
 # ------------------------------------------------------------------------------------------------ C01: getitem_next of list nodes
@@ -885,6 +885,7 @@ BELOW_METHODS = {   # name -> (mangled method with args, slot fragment, extra le
     'rpad_and_clip': ('13rpad_and_clipElll', '13rpad_and_clipElll', (3,)),
     'combinations': ('12combinationsElbRKSt10shared_ptrISt6vectorINSt7__cxx1112basic_stringIcSt11char_traitsIcESaIcEEESaIS8_EEERKSt3mapIS8_S8_St4lessIS8_ESaISt4pairIKS8_S8_EEEll',
                      '12combinationsElb', 'combinations'),
+    'getitem_field': ('13getitem_fieldERKNSt7__cxx1112basic_stringIcSt11char_traitsIcESaIcEEE', '13getitem_fieldERKNSt7__cxx1112basic_stringIcSt11char_traitsIcESaIcEEE', 'field'),
 }
 
 
@@ -930,6 +931,10 @@ def h_option_below(cls, pattern, variant, meth):
         nc.empty_map(pc_, 0, 'noparams')
         pm = nc.m.record('noparams', pc_, const=True)
         args = [BV(2), z3.BitVecVal(0, 1), rl, pm, BV(1), BV(0)]
+    elif meth == 'getitem_field':
+        kc = {}
+        _string_cells(kc, 0, 'key', 'k')
+        args = [nc.m.record('key', kc, const=True)]
     else:
         args = [BV(x) for x in extra] + [BV(1), BV(0)]
     sym = '_ZNK7awkward%s%s' % (short, mm)
@@ -945,6 +950,8 @@ def h_option_below(cls, pattern, variant, meth):
     for pc, a in calls:
         if meth == 'combinations':
             obls.append(('the content receives the same request (n, replacement, axis, depth)', z3.And(pc, z3.Or(a[0] != 2, a[1] != 0, a[4] != 1, a[5] != 0))))
+        elif meth == 'getitem_field':
+            obls.append(('the content is asked for the same field name', z3.And(pc, z3.BoolVal(_read_string(out.mem, a[0]) != 'k'))))
         else:
             want_args = list(extra) + [1, 0]
             obls.append(('the content receives the same request (same axis, same depth)', z3.And(pc, z3.Or([x != w for x, w in zip(a, want_args)]))))
@@ -961,6 +968,10 @@ def h_option_below(cls, pattern, variant, meth):
         if lc > 60:
             return False, 'content too long to replay', dict(index=iv)
         h2, inner = inner_lists(lc)
+        if meth == 'getitem_field':
+            # content: records {j: ..., k: ...}; projecting k through the option node keeps None where it was
+            prog = 'i64 %s i64 %s record 2 %d j k ' % (fullnative.ints(range(lc)), fullnative.ints([500 + x for x in range(lc)]), lc) + head(model, lc) + 'getfield k'
+            return akrun_check(prog, [None if v < 0 else 500 + v for v in iv], '%s (valid entries -> content %s)::getitem_field' % (cls, iv))
         import itertools as _it
         ref = {'combinations': lambda l: [{'0': a_, '1': b_} for a_, b_ in _it.combinations(l, 2)], 'num': lambda l: len(l), 'localindex': lambda l: list(range(len(l))), 'rpad': lambda l: py_pad(l, 3, False, None), 'rpad_and_clip': lambda l: py_pad(l, 3, True, None)}[meth]
         exp = [None if v < 0 else ref(inner[v]) for v in iv]
@@ -3459,3 +3470,158 @@ def jobs_record_named(tier):
     if tier != 'quick':
         q += [(('a', 'b', 'c'), ('c', 'a', 'b'), 1, 1), (('k',), ('k',), 0, 2), (('a', 'b'), ('b',), 1, 1)]
     return js + [(h_record_mergemany_named, a, 1800) for a in q]
+
+
+def _lookup_names(mem, rl):
+    """field names held by a RecordLookupPtr (pointer to the vector<string>), or None when null"""
+    cs = [(g, q) for g, q in nodeh.ptr_cases(rl) if q.obj is not None]
+    if not cs:
+        return None
+    if len(cs) != 1:
+        raise Unsupported('record lookup pointer has %d cases' % len(cs))
+    o, base = mem.o[cs[0][1].obj], cs[0][1].off
+    b, e = o.cells[base][0], o.cells[base + 8][0]
+    from .llbmc import is_ptr
+    if not is_ptr(b):
+        return []          # an empty vector (null begin)
+    bc = [q for g, q in nodeh.ptr_cases(b) if q.obj is not None]
+    ec = [q for g, q in nodeh.ptr_cases(e) if q.obj is not None]
+    if not bc:
+        return []
+    qb, qe = bc[0], ec[0]
+    if not isinstance(qb.off, int) or not isinstance(qe.off, int):
+        raise Unsupported('record lookup buffer is not a record of string objects')
+    out = []
+    for off in range(qb.off, qe.off, 32):
+        t = _read_string(mem, Ptr(qb.obj, off))
+        if t is None:
+            raise Unsupported('a field name of the result is not concrete')
+        out.append(t)
+    return out
+
+
+@guard
+def h_record_project(names, keys, length):
+    """RecordArray::getitem_field(name) / getitem_fields(names): projecting one field gives that field's first `length` entries (the record count),
+    whatever its position; projecting several gives a record array with exactly those fields, under those names, in the requested order, each
+    still the content stored under its name, and the same number of records; an unknown name is refused"""
+    names = tuple(names)
+    single = isinstance(keys, str)
+    klist = [keys] if single else list(keys)
+    nc = NodeCtx(['REC', 'IA', 'IDX', 'CNT', 'UTL', 'KD', 'IDS'], [], unwind=max(16, 4 * len(names) + 4 * len(klist) + 10))
+    nc.m.eng.stubs.update(string_stubs(nc))
+    this, vals, lens = build_named_record(nc, names, length)
+    nc.m.record('ret', {})
+    BASE = 1 << 32
+    known = all(k in names for k in klist)
+    if single:
+        cells = {}
+        _string_cells(cells, 0, 'key', keys)
+        kp = nc.m.record('key', cells, const=True)
+        out = nc.m.call('_ZNK7awkward11RecordArray13getitem_fieldERKNSt7__cxx1112basic_stringIcSt11char_traitsIcESaIcEEE', [Ptr('ret', 0), this, kp])
+    else:
+        cells = {}
+        for i, k in enumerate(klist):
+            _string_cells(cells, 32 * i, 'keysbuf', k)
+        nc.m.record('keysbuf', cells, const=True)
+        nb = 32 * len(klist)
+        kv = nc.m.record('keysvec', {0: (Ptr('keysbuf', 0), 8), 8: (Ptr('keysbuf', nb), 8), 16: (Ptr('keysbuf', nb), 8)}, const=True)
+        out = nc.m.call('_ZNK7awkward11RecordArray14getitem_fieldsERKSt6vectorINSt7__cxx1112basic_stringIcSt11char_traitsIcESaIcEEESaIS7_EE', [Ptr('ret', 0), this, kv])
+    obls = [('raises exactly when a requested name is not a field', z3.simplify(out.raised) != z3.BoolVal(not known))]
+    if known:
+        res = decode(nc, out.mem, nc.m.cell('ret', 0))
+        if single:
+            want = [Elem(BV(i + names.index(keys) * BASE)) for i in range(length)]
+            obls += nodeh.compare_value(res, want)
+        else:
+            if res['cls'] != 'record' or len(res['contents']) != len(klist):
+                obls.append(('the result is a record array with the requested fields', z3.BoolVal(True)))
+            else:
+                obls.append(('the number of records is unchanged', res['length'] != length))
+                got_names = _lookup_names(out.mem, res['recordlookup'])
+                obls.append(('the fields carry the requested names in the requested order (%s)' % got_names, z3.BoolVal(got_names != klist)))
+                for j, k in enumerate(klist):
+                    for i in range(length):
+                        obls += compare(nodeh.at(res['contents'][j], i), Elem(BV(i + names.index(k) * BASE)), 'record %d field "%s"' % (i, k))
+
+    def replay(model, ent):
+        ev = lambda t: model.eval(t, model_completion=True).as_signed_long()
+        prog = ''
+        for k, n in enumerate(min(ev(x), length + 2) for x in lens):
+            prog += 'i64 %s ' % fullnative.ints([100 * k + j for j in range(n)])
+        prog += 'record %d %d %s ' % (len(names), length, ' '.join(names))
+        prog += ('getfield %s' % keys) if single else ('getfields %d %s' % (len(klist), ' '.join(klist)))
+        kind_, got = fullnative.akrun(prog)
+        payload = dict(program=prog, native=[kind_, got])
+        if not known:
+            if kind_ != 'ERR':
+                return True, 'records %s projected on %s must be refused, the native library returns %s %s' % (list(names), klist, kind_, str(got)[:150]), payload
+            return False, 'native library raises, as expected', payload
+        if single:
+            exp = [100 * names.index(keys) + j for j in range(length)]
+        else:
+            exp = [{k: 100 * names.index(k) + j for k in klist} for j in range(length)]
+        payload['expected'] = exp
+        if kind_ != 'OK' or got != exp:
+            return True, 'records %s projected on %s: native library %s %s, expected %s' % (list(names), keys if single else klist, kind_, str(got)[:200], exp), payload
+        return False, 'native library agrees (%s)' % str(got)[:100], payload
+    return mdischarge(nc.m, 'RecordArray%s::getitem_field%s(%s)' % (list(names), '' if single else 's', keys if single else klist), obls, [], replay=replay if klist else None,
+                      extra=dict(bounds='field names and requested names concrete (case split), %d records, field content lengths symbolic' % length))
+
+
+def jobs_record_project(tier):
+    q = [(('a', 'b', 'c'), 'c', 2), (('a', 'b'), 'z', 1), (('a', 'b', 'c'), ('c', 'a'), 2), (('x', 'y'), ('y', 'q'), 1), (('x', 'y'), ('x', 'x'), 1)]
+    if tier != 'quick':
+        q += [(('a',), 'a', 0), (('a', 'b', 'c'), ('b',), 3), (('a', 'b', 'c'), ('c', 'b', 'a'), 1), (('x', 'y'), (), 2)]
+    return [(h_record_project, a, 900) for a in q]
+
+
+@guard
+def h_list_project(cls, dims):
+    """getitem_field(name) of a list node: the list structure (number of lists, their lengths and which elements they hold, in order) is unchanged
+    and every element is replaced by what the content answers for *that* element - projection commutes with the list level"""
+    lens0 = node_lens(cls, dims)
+    nc = NodeCtx(['LOA', 'LA', 'RA', 'IDX', 'CNT', 'UTL', 'KD', 'IDS'], [], unwind=max(8, sum(lens0) + len(lens0) + 6))
+    nc.m.eng.stubs.update(string_stubs(nc))
+    F = nc.derived_stub(BELOW_METHODS['getitem_field'][1], 'getitem_field')
+    this, lists, starts, offs, short = list_node(nc, cls, dims)
+    kc = {}
+    _string_cells(kc, 0, 'key', 'k')
+    kp = nc.m.record('key', kc, const=True)
+    nc.m.record('ret', {})
+    out = nc.m.call('_ZNK7awkward%s%s' % (short, BELOW_METHODS['getitem_field'][0]), [Ptr('ret', 0), this, kp])
+    obls = [('projection does not raise', out.raised)]
+    calls = [(pc, a) for pc, nm, a in out.trace if nm == 'getitem_field']
+    obls.append(('the content is asked', z3.Not(z3.Or([pc for pc, _ in calls] + [z3.BoolVal(False)]))))
+    for pc, a in calls:
+        obls.append(('the content is asked for the same field name', z3.And(pc, z3.BoolVal(_read_string(out.mem, a[0]) != 'k'))))
+    want = [[Elem(F(e.val)) for e in lst] for lst in lists]
+    for g, res in nodeh.decode_cases(nc, out.mem, nc.m.cell('ret', 0)):
+        if res is None:
+            obls.append(('a result is returned', z3.And(g, z3.Not(out.raised))))
+        else:
+            obls += [(nm, z3.And(g, c)) for nm, c in nodeh.compare_value(res, want)]
+
+    def replay(model, ent):
+        lc = model.eval(nc.lencontent, model_completion=True).as_signed_long()
+        if lc > 200:
+            return False, 'content too long to replay (%d)' % lc, dict()
+        head, inp = node_program(nc, model, lc)
+        ntoks = head.split()
+        cnt = int(ntoks[1])
+        head = 'i64 %s i64 %s record 2 %d j k ' % (fullnative.ints(range(cnt)), fullnative.ints([500 + x for x in range(cnt)]), cnt) + ' '.join(ntoks[2 + cnt:]) + ' '
+        exp = [[500 + x for x in lst] for lst in inp]
+        return akrun_check(head + 'getfield k', exp, '%s %s of records::getitem_field' % (cls, inp))
+    return mdischarge(nc.m, '%s::getitem_field shape=%s' % (cls, ','.join(map(str, dims))), obls, [], replay=replay,
+                      prefer=[nc.lencontent <= 24] + [o <= 20 for o in offs],
+                      extra=dict(bounds='shape %s concrete (case split), origins and content length symbolic' % (dims,)))
+
+
+def jobs_project(tier):
+    js = list(jobs_record_project(tier))
+    shapes = [(2, 0, 1), (0,)] if tier == 'quick' else [(2, 0, 1), (0,), (1, 1), (3,), (0, 0, 2)]
+    regs = [(2, 2), (0, 3)] if tier == 'quick' else [(2, 2), (0, 3), (3, 1), (1, 0)]
+    for cls in ('ListOffsetArray64', 'ListArray64', 'RegularArray'):
+        for d in (regs if cls == 'RegularArray' else shapes):
+            js.append((h_list_project, (cls, d), 1800))
+    return js
